@@ -1398,6 +1398,8 @@ pub struct Cff1Opts {
     pub top_extra: Vec<u8>,
     /// raw DICT entries added to each Font DICT of a CID-keyed font (before Private)
     pub font_dict_extra: Vec<Vec<u8>>,
+    /// custom strings appended to the String INDEX (SID 391 onwards; CID-keyed fonts already hold "Adobe", "Identity")
+    pub strings: Vec<Vec<u8>>,
 }
 
 pub fn build_cff1_opts(charstrings: &[Vec<u8>], gsubrs: &SubrIndex, charset_spec: &Charset, fds: &[PrivateSpec], cid_spec: Option<(&[u8], u8)>, opts: &Cff1Opts) -> Vec<u8> {
@@ -1406,7 +1408,8 @@ pub fn build_cff1_opts(charstrings: &[Vec<u8>], gsubrs: &SubrIndex, charset_spec
     let n_glyphs = charstrings.len();
     let cid = cid_spec.is_some();
     let name_index = index_dense(&[b"VerifC18".to_vec()], false);
-    let strings: Vec<Vec<u8>> = if cid { vec![b"Adobe".to_vec(), b"Identity".to_vec()] } else { vec![] };
+    let mut strings: Vec<Vec<u8>> = if cid { vec![b"Adobe".to_vec(), b"Identity".to_vec()] } else { vec![] };
+    strings.extend(opts.strings.iter().cloned());
     let string_index = index_dense(&strings, false);
     let gsubr_index = index_sparse(gsubrs.count, &gsubrs.items, false);
     let charset = match charset_spec {
@@ -2367,6 +2370,8 @@ fn dict_get(dict: &[(u16, Vec<f64>)], o: u16) -> Option<&Vec<f64>> {
 /// A CFF 1 table (first font), read lazily.
 pub struct Cff1Ref<'a> {
     d: &'a [u8],
+    /// the String INDEX (custom strings; SID = 391 + index)
+    pub strings: IndexRef<'a>,
     /// Top DICT, Font DICTs (CID-keyed fonts) and Private DICTs (one per font DICT; exactly one for name-keyed fonts)
     pub top: Vec<(u16, Vec<f64>)>,
     pub font_dicts: Vec<Vec<(u16, Vec<f64>)>>,
@@ -2429,7 +2434,7 @@ impl<'a> Cff1Ref<'a> {
             lsubrs.push(private_of(&top)?);
         }
         let charset_off = one(dop::CHARSET).unwrap_or(0);
-        Ok(Cff1Ref { d, top, font_dicts, privates, hdr_size: hdr as u8, charstrings, gsubrs, cid, lsubrs, charset_off, fdselect_off })
+        Ok(Cff1Ref { d, strings, top, font_dicts, privates, hdr_size: hdr as u8, charstrings, gsubrs, cid, lsubrs, charset_off, fdselect_off })
     }
 
     /// font DICT index of a glyph (0 for name-keyed fonts)
@@ -2469,6 +2474,41 @@ impl<'a> Cff1Ref<'a> {
             return Err("FDSelect names a missing Font DICT".into());
         }
         Ok(fd as usize)
+    }
+
+    /// charset entries of glyphs 1.. (SIDs for a name-keyed font, CIDs for a CID-keyed one); None for the predefined Expert
+    /// charsets, the identity for ISOAdobe
+    pub fn charset_ids(&self) -> Option<Vec<u16>> {
+        let n = self.charstrings.count;
+        match self.charset_off {
+            0 => Some((1..n as u16).collect()),
+            1 | 2 => None,
+            off => {
+                let mut r = crate::be::R::at(self.d, off);
+                let fmt = r.u8()?;
+                let mut v: Vec<u16> = Vec::with_capacity(n);
+                match fmt {
+                    0 => {
+                        while v.len() + 1 < n {
+                            v.push(r.u16()?);
+                        }
+                    }
+                    1 | 2 => {
+                        while v.len() + 1 < n {
+                            let first = r.u16()? as u32;
+                            let left = if fmt == 1 { r.u8()? as u32 } else { r.u16()? as u32 };
+                            for k in 0..=left {
+                                if v.len() + 1 < n {
+                                    v.push((first + k) as u16);
+                                }
+                            }
+                        }
+                    }
+                    _ => return None,
+                }
+                Some(v)
+            }
+        }
     }
 
     /// glyph id of the glyph whose charset SID is `sid` (name-keyed fonts; None if absent or charset is Expert / ExpertSubset)
